@@ -8,6 +8,7 @@ import MiVerif.Lemmas.PageMore
 import MiVerif.Lemmas.SegReach
 import MiVerif.Lemmas.ExtendLoop
 import MiVerif.Lemmas.PageStart
+import MiVerif.Lemmas.CalcSlices
 
 namespace C01
 open PageM
@@ -246,5 +247,25 @@ example : GenL.mi_page_free_list_extend (fun _ => 65536) 2 77 1 16 3 0 =
 -- non-vacuity: a concrete reachable page state
 example : Inv ([Op.extend 4, Op.pop, Op.pop, Op.freeLocal 0, Op.lfCollect].foldl step (init 8)) := page_invariant_reachable 8 _
 example : ([Op.extend 4, Op.pop, Op.pop, Op.freeLocal 0].foldl step (init 8)).live = [1] := by decide
+
+/-- **the size of a segment, as regenerated from `mi_segment_calculate_slices`** (release configuration, every page size dividing
+    64 KiB, every request below 2^62): the segment header (`sizeof(mi_segment_t)`, 49536 bytes here) lies inside the info slices —
+    exactly one 64 KiB slice, which no page ever covers (`page_area_inside_its_slices` starts pages at their own slices) —, a normal
+    segment has 512 slices, and a segment made for a huge request has room for the whole request *behind* the info slices with less
+    than one slice wasted: the huge block and the header never share a byte -/
+theorem generated_segment_size_covers_header_and_request (ps required : Nat) (hps : 0 < ps) (hd : ps ∣ 65536) (hr : required < 2^62) :
+    (Gen.mi_segment_calculate_slices ps required 1).2 = 1
+    ∧ 49536 ≤ (Gen.mi_segment_calculate_slices ps required 1).2 * 65536
+    ∧ (required = 0 → (Gen.mi_segment_calculate_slices ps required 1).1 = 512)
+    ∧ (0 < required →
+        required + (Gen.mi_segment_calculate_slices ps required 1).2 * 65536 ≤ (Gen.mi_segment_calculate_slices ps required 1).1 * 65536
+        ∧ (Gen.mi_segment_calculate_slices ps required 1).1 * 65536 < required + (Gen.mi_segment_calculate_slices ps required 1).2 * 65536 + 65536) := by
+  rw [CalcSlicesL.calc_eq ps required hps hd hr]
+  refine ⟨rfl, (by show 49536 ≤ 1 * 65536; decide), fun h0 => by simp [h0], fun hpos => ?_⟩
+  have h0 : required ≠ 0 := by omega
+  simp only [if_neg h0]
+  omega
+
+example : Gen.mi_segment_calculate_slices 4096 (40 * 1048576) 1 = (641, 1) := by decide
 
 end C01
